@@ -12,6 +12,8 @@ import Rl.Drv.Ed
 import Rl.Drv.Direct
 import Rl.Drv.Completion
 import Rl.Drv.HistFile
+import Rl.Drv.RawMode
+import Rl.Drv.Printer
 open Rl Rl.Wire
 
 def dispatch (tbl : CharTable) (target : String) (f : List String) (impl : String) : String × String :=
@@ -22,6 +24,8 @@ def dispatch (tbl : CharTable) (target : String) (f : List String) (impl : Strin
     | "direct" => Rl.Drv.Direct.handle tbl f impl
     | "seg" => Rl.Drv.Direct.handleSeg tbl f impl
     | "hf" => Rl.Drv.HistFile.handle tbl f impl
+    | "raw" => Rl.Drv.RawMode.handle tbl f impl
+    | "pr" => Rl.Drv.Printer.handle tbl f impl
     | "comp" | "clcp" | "cfs" => Rl.Drv.Completion.handle target tbl f impl
     | _ =>
       if target.startsWith "ed" then Rl.Drv.Ed.handle tbl target f impl
